@@ -163,3 +163,124 @@ def translate_partition(src: Path):
               "Variable keq : list cell -> list cell -> bool.          (* tuple == *)\n"
               "Notation pdict := (list (list cell * list nat)).\n\n")
     return head + "\n".join(parts) + "\nEnd Partition.\n", {"lines": lines, "notes": notes}
+
+
+# ---- the right-side hash index of the three joins (GenJoinIndex.v) ------------------------------------------------
+
+JOINS = (("inner_join", "inner"), ("join", "left"), ("full_join", "full"))
+IMPORTS_JI = ("From Coq Require Import List Bool Arith.\nFrom Serif Require Import Base.GenPrelude.\nImport ListNotations.\n")
+
+
+def translate_join_method(path, M, pre):
+    """Recognises, in one join method:
+           right_index = {}                              [right_index_get = right_index.get  - before or after the loop]
+           check_right_unique = expect in (...)          (the tuple itself is GenJoin.v's subject)
+           if check_right_unique: duplicates = {}
+           for <j> in range(right_nrows):
+               key = tuple(col[<j>] for col in right_keys)
+               if validate_hashable: <X>._validate_key_tuple_hashable(key, right_keys, <j>)
+               bucket = right_index.get(key) | right_index_get(key)
+               if bucket is None: right_index[key] = [<j>]
+               else:
+                   bucket.append(<j>)
+                   if check_right_unique [and key not in duplicates]: duplicates[key] = bucket
+       No other statement of the method may WRITE right_index / duplicates / bucket."""
+    err = lambda node, what: TranslationError(path, getattr(node, "lineno", M.lineno), f"Table.{M.name}: {what}")   # noqa: E731
+    loops = [n for n in M.body if isinstance(n, ast.For) and ast.unparse(n.iter) == "range(right_nrows)"
+             and any(isinstance(x, ast.Name) and x.id in ("right_index", "right_index_get", "bucket") for x in ast.walk(n))]
+    if len(loops) != 1:
+        raise err(M, f"expected one top-level `for <j> in range(right_nrows)` that builds right_index, found {len(loops)}")
+    loop = loops[0]
+    if loop.orelse or not isinstance(loop.target, ast.Name):
+        raise err(loop, "loop shape")
+    j = loop.target.id
+    pos = M.body.index(loop)
+    inits = [ast.unparse(s) for s in M.body[:pos]]
+    if inits.count("right_index = {}") != 1:
+        raise err(loop, "`right_index = {}` must occur exactly once before the loop")
+    if inits.count("if check_right_unique:\n    duplicates = {}") != 1:
+        raise err(loop, "`if check_right_unique: duplicates = {}` must occur exactly once before the loop")
+    aliases = [s for s in M.body if ast.unparse(s) == "right_index_get = right_index.get"]
+    getter = {"right_index.get(key)"}
+    if aliases:
+        if len(aliases) != 1 or M.body.index(aliases[0]) < inits.index("right_index = {}"):
+            raise err(aliases[0], "`right_index_get = right_index.get` is bound more than once / before the dict exists")
+        if M.body.index(aliases[0]) < pos:
+            getter.add("right_index_get(key)")
+    # writers outside the loop
+    for st in M.body:
+        if st is loop:
+            continue
+        for n in ast.walk(st):
+            if isinstance(n, ast.Name) and isinstance(n.ctx, ast.Store) and n.id in ("right_index", "duplicates", "bucket", "right_index_get") \
+                    and ast.unparse(st) not in ("right_index = {}", "right_index_get = right_index.get", "if check_right_unique:\n    duplicates = {}"):
+                raise err(st, f"`{n.id}` is written outside the index loop")
+            if isinstance(n, ast.Subscript) and isinstance(n.ctx, (ast.Store, ast.Del)) and ast.unparse(n.value) in ("right_index", "duplicates"):
+                raise err(st, f"`{ast.unparse(n.value)}` is written outside the index loop")
+            if isinstance(n, ast.Call) and isinstance(n.func, ast.Attribute) and ast.unparse(n.func.value) in ("right_index", "duplicates") \
+                    and n.func.attr not in ("get", "items"):
+                raise err(st, f"`{ast.unparse(n.func)}` is called outside the index loop")
+    sts = list(loop.body)
+    if len(sts) != 4:
+        raise err(loop, f"the loop body has {len(sts)} statements, expected key / hashability check / bucket / branch")
+    if ast.unparse(sts[0]) != f"key = tuple((col[{j}] for col in right_keys))":
+        raise err(sts[0], f"the key is not `tuple(col[{j}] for col in right_keys)`: `{ast.unparse(sts[0])[:80]}`")
+    hv = ast.unparse(sts[1])
+    if hv not in (f"if validate_hashable:\n    Table._validate_key_tuple_hashable(key, right_keys, {j})",
+                  f"if validate_hashable:\n    self._validate_key_tuple_hashable(key, right_keys, {j})"):
+        raise err(sts[1], "the second statement is not the hashability validation of the key")
+    if not (isinstance(sts[2], ast.Assign) and ast.unparse(sts[2].targets[0]) == "bucket" and ast.unparse(sts[2].value) in getter):
+        raise err(sts[2], f"expected `bucket = right_index.get(key)`, found `{ast.unparse(sts[2])[:80]}`")
+    br = sts[3]
+    if not (isinstance(br, ast.If) and ast.unparse(br.test) == "bucket is None" and len(br.body) == 1
+            and ast.unparse(br.body[0]) == f"right_index[key] = [{j}]" and len(br.orelse) == 2
+            and ast.unparse(br.orelse[0]) == f"bucket.append({j})" and isinstance(br.orelse[1], ast.If)
+            and not br.orelse[1].orelse and len(br.orelse[1].body) == 1
+            and ast.unparse(br.orelse[1].body[0]) == "duplicates[key] = bucket"):
+        raise err(br, "the branch is not `if bucket is None: right_index[key] = [<j>] else: bucket.append(<j>); "
+                      "if check_right_unique ...: duplicates[key] = bucket`")
+    test = ast.unparse(br.orelse[1].test)
+    if test == "check_right_unique":
+        cond = "chk"
+    elif test == "check_right_unique and key not in duplicates":
+        cond = "chk && negb (kmem dups key)"
+    else:
+        raise err(br.orelse[1], f"the duplicates test is `{test}`")
+    text = (f"(* table.py:{loop.lineno}-{loop.end_lineno} Table.{M.name}: one step of the right index loop *)\n"
+            f"Definition {pre}_index_step (chk : bool) (st : pdict * list (list cell)) (key : list cell) (py_{j} : nat)\n"
+            f"  : pdict * list (list cell) :=\n"
+            f"  let '(right_index, dups) := st in\n"
+            f"  match dict_get keq right_index key with\n"
+            f"  | None => (dict_set keq right_index key [py_{j}], dups)\n"
+            f"  | Some b => (dict_set keq right_index key (b ++ [py_{j}]),\n"
+            f"               if {cond} then (if kmem dups key then dups else dups ++ [key]) else dups)\n"
+            f"  end.\n\n"
+            f"(* key = tuple(col[j] for col in right_keys) *)\n"
+            f"Definition {pre}_index_key (right_keys : list (list cell)) (py_{j} : nat) : list cell :=\n"
+            f"  map (fun col => nth py_{j} col None) right_keys.\n\n"
+            f"Definition {pre}_index (chk : bool) (right_keys : list (list cell)) (right_nrows : nat) : pdict * list (list cell) :=\n"
+            f"  fold_left (fun st py_{j} => {pre}_index_step chk st ({pre}_index_key right_keys py_{j}) py_{j}) (seq 0 right_nrows) ([], []).\n")
+    return text, [loop.lineno, loop.end_lineno]
+
+
+def translate_join_index(src: Path):
+    path = src / "table.py"
+    tree = ast.parse(path.read_text(), filename=str(path))
+    parts, lines = [], {}
+    for meth, pre in JOINS:
+        t, ln = translate_join_method(path, _one(tree, path, "Table", meth), pre)
+        parts.append(t)
+        lines[f"{pre}_index"] = ln
+    notes = ["a dict is an association list in insertion order; `duplicates` is seen through its key set, in insertion order "
+             "(its values alias the buckets and are only used in the error message); key equality (tuple ==) is the parameter keq",
+             "the hashability validation either raises (keys outside the domain) or does nothing: not translated",
+             "NOT translated: key resolution before the loop, the probe loops and the materialisation (Model/Join.v, tied by the "
+             "correspondence checks of C09 / C10 / C11); the expect guard and the check flags are GenJoin.v's"]
+    head = ("(* GenJoinIndex.v — GENERATED by harness/translate_partition.py from table.py (inner_join, join, full_join);\n"
+            "   do not edit.  The hash index over the right table's key tuples and the duplicate bookkeeping.\n"
+            + "".join(f"   {n}\n" for n in notes).replace("*)", "* )") + "*)\n" + IMPORTS_JI
+            + "\nSection JoinIndex.\nVariable X : Type.\nNotation cell := (option X).\n"
+              "Variable keq : list cell -> list cell -> bool.          (* tuple == *)\n"
+              "Notation pdict := (list (list cell * list nat)).\n"
+              "Definition kmem (s : list (list cell)) (k : list cell) : bool := existsb (fun k' => keq k k') s.\n\n")
+    return head + "\n".join(parts) + "\nEnd JoinIndex.\n", {"lines": lines, "notes": notes}
